@@ -346,4 +346,108 @@ theorem connect_scanJS {c : Ctx} {w : Wid} {s : Store} {b : Block} {k : Nat} {ws
     exact hU1 hU
 
 
+-- ------------------------------------------------------------------ disconnecting the tip block AT the cursor
+
+/-- **disconnecting the tip block when the cursor of the wallet being restored is AT the tip**: the joined store is
+    then the books of the FULL keystore table for the stored chain, C01's rollback undoes the block for both halves
+    (Rollback looks owners up in all keystores and works on all balances), and the cursor is pulled back to the new tip -/
+theorem disconnect_scanJS_at {c : Ctx} {w : Wid} {s : Store} {chain : List Block} {b : Block} {ws : WStatus}
+    (hKN : KeysNodup c.own) (hV : ChainValid c.own (chain ++ [b])) (hH : HeightsOK (chain ++ [b])) (hne : chain ≠ [])
+    (hkn : AMap.get c.node.known b.id = some b) (hS : ScanJS c w s (chain ++ [b]) chain.length)
+    (hst : AMap.get s.status w = some ws) (hk : ws.synced = some chain.length)
+    (hAR : AllReady (ownR c.own w) (readyWallets s c.wallets)) :
+    ∃ s', disconnectBlock c s b.height = .ok s' ∧ ScanJS c w s' chain (chain.length - 1) ∧
+      AMap.get s'.status w = some { ws with synced := some (chain.length - 1) } ∧
+      (∀ l, readyWallets s' l = readyWallets s l) := by
+  have hOr := ownR_sub hKN w
+  have hOw := ownW_sub hKN w
+  have hbh : b.height = chain.length := heightsOK_mid hH
+  have hlen : chain.length ≠ 0 := fun h => hne (List.eq_nil_of_length_eq_zero h)
+  have h0 : b.height ≠ 0 := by omega
+  have hsto : s.syncedTo = b.height := by
+    have := hS.syncedTo
+    simp only [List.length_append, List.length_singleton] at this
+    omega
+  have hVc : ChainValid c.own chain := chainValid_prefix hV
+  have hHc : HeightsOK chain := heightsOK_prefix hH
+  have htake : (chain ++ [b]).take (chain.length + 1) = chain ++ [b] := by
+    apply List.take_of_length_le
+    simp
+  have hA := hS.agree
+  have hBl := hS.bal
+  rw [htake] at hA hBl
+  -- the joined store is the books of the full table
+  have hAM : AgreeM s (bookOf c.p c.own (chain ++ [b])) := by
+    refine ⟨?_, ?_, ?_, ?_, ?_, ?_⟩
+    · intro w' tx idx
+      rw [hA.unspent, join_lookup (p := c.p) hOr hOw hV]
+    · intro key; rw [hA.credits, join_credits (p := c.p) hOr hOw hV]
+    · intro key; rw [hA.debits, join_debits (p := c.p) hOr hOw hV]
+    · intro key; rw [hA.game, join_game (p := c.p) hOr hOw hV]
+    · intro key; rw [hA.txrecs, join_txrecs (p := c.p) hOr hOw hV]
+    · intro h
+      rw [hS.blocks h, blocks_eq_blockRecOf c.p c.own (chain ++ [b]) hV hH h]
+      apply blockRecOf_congr
+      intro key
+      unfold hasRec
+      rw [hA.txrecs, join_txrecs (p := c.p) hOr hOw hV]
+  have hbalAll : ∀ w', (w :: readyWallets s c.wallets).contains w' = true →
+      AMap.get s.balance w' = some (totalU (bookOf c.p c.own (chain ++ [b])).L w') := by
+    intro w' hw'
+    by_cases hww : w' = w
+    · rw [hww, hBl, join_total_w (p := c.p) hOw]
+    · rw [← join_total_r (p := c.p) (chain := chain ++ [b]) hOr w' hww]
+      apply hS.balR w' hww
+      rw [List.contains_iff_mem] at hw' ⊢
+      rcases List.mem_cons.1 hw' with h | h
+      · exact absurd h hww
+      · exact h
+  have hARall : AllReady c.own (w :: readyWallets s c.wallets) := by
+    intro a w' ch ha
+    by_cases hww : w' = w
+    · rw [hww]; simp
+    · have : AMap.get (ownR c.own w) a = some (w', ch) := by
+        rw [hOr a, ha]; simp [Option.filter, hww]
+      have := hAR a w' ch this
+      rw [List.contains_iff_mem] at this ⊢
+      exact List.mem_cons_of_mem _ this
+  obtain ⟨s1, hrun, hA1, hbal1, hsy1, hst1, hstat1⟩ := rollback_tipR hAM hbalAll hsto hV hH hkn hARall
+  obtain ⟨s', hd, e1, e2, e3, e4, e5, e6, e7, e8, e9, e10, e11⟩ := disconnect_tail' h0 hsto hrun hst1
+  have hrdy : ∀ l, readyWallets s' l = readyWallets s l := fun l => (e11 l).trans (readyWallets_congr hstat1 l)
+  have hk1 : chain.take (chain.length - 1 + 1) = chain := by
+    rw [show chain.length - 1 + 1 = chain.length by omega, List.take_length]
+  refine ⟨s', hd, ?_, ?_, hrdy⟩
+  · refine ⟨?_, ?_, ?_, ?_, ?_, ?_, ?_⟩
+    · rw [hk1]
+      constructor
+      · intro w' tx idx
+        rw [e1, hA1.unspent, join_lookup (p := c.p) hOr hOw hVc]
+      · intro key; rw [e2, hA1.credits, join_credits (p := c.p) hOr hOw hVc]
+      · intro key; rw [e3, hA1.debits, join_debits (p := c.p) hOr hOw hVc]
+      · intro key; rw [e4, hA1.game, join_game (p := c.p) hOr hOw hVc]
+      · intro key; rw [e5, hA1.txrecs, join_txrecs (p := c.p) hOr hOw hVc]
+    · intro h
+      rw [e6, hA1.blocks, blocks_eq_blockRecOf c.p c.own chain hVc hHc h]
+      apply blockRecOf_congr
+      intro key
+      unfold hasRec
+      rw [e5, hA1.txrecs]
+    · intro key loc hl
+      rw [e5, hA1.txrecs] at hl
+      obtain ⟨P₁, oc, P₂, hsp, _, hk', hloc⟩ := txrec_occ hVc hl
+      exact ⟨oc, by rw [hsp]; simp, hk', hloc⟩
+    · rw [e7, hk1, hbal1 w (by simp), join_total_w (p := c.p) hOw]
+    · intro w' hww hr
+      rw [hrdy c.wallets] at hr
+      rw [e7, hbal1 w' (by rw [List.contains_iff_mem] at hr ⊢; exact List.mem_cons_of_mem _ hr),
+        join_total_r (p := c.p) (chain := chain) hOr w' hww]
+    · intro h'
+      rw [e8, hsy1]; exact sync_erase_tip hbh hS.sync h'
+    · rw [e9]; omega
+  · rw [e10, pullBack_get, hstat1, hst]
+    simp only [Option.map_some, hk]
+    have hgt : chain.length > b.height - 1 := by omega
+    simp only [hgt, if_true]
+    rw [hbh]
+
 end MW.Lemmas.ImportJoin
